@@ -7,6 +7,7 @@ import (
 	"runtime"
 	"sort"
 	"strconv"
+	"strings"
 	"sync"
 )
 
@@ -147,7 +148,7 @@ func RunSched(bodies []func() string, choices []int, snap func() string) *SchedR
 		r := pending[t]
 		delete(pending, t)
 		res.Trace = append(res.Trace, Step{Key: key, Enabled: append([]int(nil), en...), Chosen: t, Var: r.id, W: r.w == 1})
-		if r.id != "<start>" {
+		if r.id != "<start>" && !strings.HasPrefix(r.id, "sync:") {
 			for _, a := range seen[r.id] {
 				if a.tid != t && (a.w || r.w == 1) {
 					res.Races[r.id] = fmt.Sprintf("thread %d (write=%v) and thread %d (write=%v) both access %s and the library has no synchronisation", a.tid, a.w, t, r.w == 1, r.id)
